@@ -216,3 +216,15 @@ def f(b: Bytes[64], n: uint256) -> Bytes[130]:
 def k(b: Bytes[64]) -> (bytes32, uint256):
     return keccak256(b), len(b) * 2 // 2
 ''')
+
+# source-level replay of the known defect `truthy-or-under-if-branch` (reported under that key, see checks/c15.py)
+_add("ifexp_or", '''
+@external
+@payable
+def f(c: bool) -> uint256:
+    return (msg.value | 2) if c else 0
+
+@external
+def g(c: bool) -> uint256:
+    return (len(msg.data) | 1) if c else 5
+''')
